@@ -69,6 +69,9 @@ def one(m, cross, checks):
         out = os.path.join(tmp, "out")
         code, txt = run_check(m["prop"], tmp, out)
         want = 1 if m["expect"] == "V" else 0
+        if m["expect"] == "Q":
+            # a correct variant the rules need not be able to prove: any verdict but an alarm
+            want = code if code in (0, 2) else 0
         status = "ok" if code == want else "MISS"
         detail = ""
         if status == "MISS":
